@@ -629,11 +629,19 @@ func (fc *followerController) SendSnapshot(stream proto.OxiaLogReplication_SendS
 	return closeStreamWg.Wait(fc.ctx)
 }
 
-func (fc *followerController) readSnapshotStream(stream proto.OxiaLogReplication_SendSnapshotServer, loader kv.SnapshotLoader) (int64, error) {
+func (fc *followerController) readSnapshotStream(stream proto.OxiaLogReplication_SendSnapshotServer, loader kv.SnapshotLoader,
+	firstChunk *proto.SnapshotChunk) (int64, error) {
 	var totalSize int64
 
 	for {
-		snapChunk, err := stream.Recv()
+		var snapChunk *proto.SnapshotChunk
+		var err error
+		if firstChunk != nil {
+			// The first chunk was already received (and its term checked) by the caller
+			snapChunk, firstChunk = firstChunk, nil
+		} else {
+			snapChunk, err = stream.Recv()
+		}
 		switch {
 		case err != nil:
 			if errors.Is(err, io.EOF) {
@@ -673,8 +681,22 @@ func (fc *followerController) handleSnapshot(stream proto.OxiaLogReplication_Sen
 	fc.Lock()
 	defer fc.Unlock()
 
+	// The sender must be the leader of our term. Check that on the first chunk,
+	// before anything is wiped: a late snapshot of a deposed leader must not
+	// destroy the log of a node that was fenced in a newer term.
+	firstChunk, err := stream.Recv()
+	if err != nil && !errors.Is(err, io.EOF) {
+		fc.closeStreamNoMutex(err)
+		return
+	}
+	endOfStream := err != nil || firstChunk == nil
+	if !endOfStream && fc.term != wal.InvalidTerm && firstChunk.Term != fc.term {
+		fc.closeStreamNoMutex(constant.ErrInvalidTerm)
+		return
+	}
+
 	// Wipe out both WAL and DB contents
-	err := fc.wal.Clear()
+	err = fc.wal.Clear()
 	if err != nil {
 		fc.closeStreamNoMutex(err)
 		return
@@ -698,9 +720,11 @@ func (fc *followerController) handleSnapshot(stream proto.OxiaLogReplication_Sen
 
 	defer loader.Close()
 
-	totalSize, err := fc.readSnapshotStream(stream, loader)
-	if err != nil {
-		return
+	var totalSize int64
+	if !endOfStream {
+		if totalSize, err = fc.readSnapshotStream(stream, loader, firstChunk); err != nil {
+			return
+		}
 	}
 
 	// We have received all the files for the database
